@@ -20,7 +20,7 @@ pub const DEF: PropDef = PropDef {
            alert and handshake records with 1..4 messages: ClientHello with cookie 0..255, HelloVerifyRequest, ServerHello, Certificate, ServerHelloDone, ClientKeyExchange, \
            and fragments) followed by trailing bytes, parsed whole and at every prefix (<= 300 bytes) or 48 sampled cuts; hs_header = handshake headers with (length, offset, \
            fragment length) over the full 24-bit ranges incl. offset+fragment = length, fragment = length-1, offset = 1, any type code; datagram = 1..5 records in one buffer vs \
-           record-by-record. Non-trivial = a handshake message with a non-empty body or a fragment, parsed past the header (records/hs_header/datagram), a complete header with \
+           record-by-record; message_level = the DTLS ChangeCipherSpec / alert message parsers against their TLS siblings on every input of 0..2 bytes and 65536 3-byte inputs. Non-trivial = a handshake message with a non-empty body or a fragment, parsed past the header (records/hs_header/datagram), a complete header with \
            length within the cap (frame_exhaustive); distinct by hash of the bytes / by (type, length, cut class).",
     assumptions: &["13-byte record header and 12-byte handshake header are decoded by hand in the harness", "model encoders follow RFC 6347 4.1, 4.2.2, 4.3.2"],
     run,
@@ -33,6 +33,7 @@ pub const SUBS: &[SubDef] = &[
     SubDef { prop: "C10", name: "datagram", oracle: datagram },
     SubDef { prop: "C10", name: "frame_raw", oracle: frame_raw },
 ];
+// message_level is an enumeration inside run(): it has no tape oracle to replay
 
 const CAP: usize = (1 << 14) + 256;
 
@@ -53,6 +54,50 @@ fn run(ctx: &Ctx) {
     ctx.run_tape("hs_header", hs_header, ctx.pick(50_000, 500_000), 200);
     ctx.run_tape("datagram", datagram, ctx.pick(20_000, 200_000), 1500);
     ctx.run_tape("frame_raw", frame_raw, ctx.pick(50_000, 400_000), 80);
+    // "ChangeCipherSpec and alert records decode as in TLS": the message-level DTLS parsers against their TLS siblings, on every input
+    // of 0, 1 and 2 bytes and on 3-byte inputs derived from the seed (value, remainder, Incomplete size and error kind must agree)
+    let seed = ctx.seed;
+    ctx.run_fn("message_level", true, "parse_dtls_message_changecipherspec / parse_dtls_message_alert vs parse_tls_message_changecipherspec / parse_tls_message_alert on all inputs of 0..2 bytes and 65536 three-byte inputs", move |obs| {
+        let third = fill(seed ^ 0xC10A, 65536);
+        let mut inputs: Vec<Vec<u8>> = vec![vec![]];
+        inputs.extend((0..=255u8).map(|a| vec![a]));
+        inputs.extend((0..=65535u32).map(|v| vec![(v >> 8) as u8, v as u8]));
+        inputs.extend((0..=65535u32).map(|v| vec![(v >> 8) as u8, v as u8, third[v as usize]]));
+        for i in &inputs {
+            obs.evals_add(2);
+            let (d, t) = guard("ChangeCipherSpec message parsers", || (sum_dtls(parse_dtls_message_changecipherspec(i)), sum_tls(parse_tls_message_changecipherspec(i))))?;
+            ensure!(d == t, "C10:message-level:changecipherspec", "parse_dtls_message_changecipherspec({}) answers {} where parse_tls_message_changecipherspec answers {}", hex_short(i), d, t);
+            let (d, t) = guard("alert message parsers", || (sum_dtls(parse_dtls_message_alert(i)), sum_tls(parse_tls_message_alert(i))))?;
+            ensure!(d == t, "C10:message-level:alert", "parse_dtls_message_alert({}) answers {} where parse_tls_message_alert answers {}", hex_short(i), d, t);
+            if d.starts_with("Ok") {
+                obs.nontrivial(fnv64(i));
+            }
+        }
+        obs.sample(json!({"inputs": inputs.len(), "example": "01 -> Ok(ChangeCipherSpec, 0 left); (empty) -> Incomplete(1)"}));
+        Ok(())
+    });
+}
+
+fn sum_dtls(r: IResult<&[u8], DTLSMessage>) -> String {
+    match r {
+        Ok((rem, DTLSMessage::ChangeCipherSpec)) => format!("Ok(ChangeCipherSpec, {} left)", rem.len()),
+        Ok((rem, DTLSMessage::Alert(a))) => format!("Ok(Alert({}, {}), {} left)", a.severity.0, a.code.0, rem.len()),
+        Ok((rem, o)) => format!("Ok(other {:?}, {} left)", o, rem.len()),
+        Err(Err::Incomplete(n)) => format!("Incomplete({:?})", n),
+        Err(Err::Error(e)) => format!("Error({:?})", e.code),
+        Err(Err::Failure(e)) => format!("Failure({:?})", e.code),
+    }
+}
+
+fn sum_tls(r: IResult<&[u8], TlsMessage>) -> String {
+    match r {
+        Ok((rem, TlsMessage::ChangeCipherSpec)) => format!("Ok(ChangeCipherSpec, {} left)", rem.len()),
+        Ok((rem, TlsMessage::Alert(a))) => format!("Ok(Alert({}, {}), {} left)", a.severity.0, a.code.0, rem.len()),
+        Ok((rem, o)) => format!("Ok(other {:?}, {} left)", o, rem.len()),
+        Err(Err::Incomplete(n)) => format!("Incomplete({:?})", n),
+        Err(Err::Error(e)) => format!("Error({:?})", e.code),
+        Err(Err::Failure(e)) => format!("Failure({:?})", e.code),
+    }
 }
 
 thread_local! {
